@@ -60,6 +60,23 @@ type c18Image struct {
 	baseAlloc uint64
 	baseTime  time.Duration
 	special   []c18Fault
+	scratch   *dev.Device // one device per base, damaged and restored around every probe (the walk never writes)
+}
+
+// damaged returns the base image with one fault applied, and the function that undoes it.
+func (im *c18Image) damaged(f c18Fault) (*dev.Device, func()) {
+	if im.scratch == nil {
+		im.scratch = dev.FromBytes(im.bytes, im.size)
+	}
+	d := im.scratch
+	b := unhex(f.Hex)
+	end := f.Off + int64(len(b))
+	if end > im.size {
+		end = im.size
+	}
+	orig := append([]byte(nil), im.bytes[f.Off:end]...)
+	d.Poke(f.Off, b)
+	return d, func() { d.Poke(f.Off, orig) }
 }
 
 var (
@@ -378,7 +395,18 @@ func c18FATFaults(kind string, im *c18Image) []c18Fault {
 	return out
 }
 
-func c18Values(orig []byte, w int, size, blk int64) [][]byte {
+func c18Values(img []byte, off int64, w int, size, blk int64) [][]byte {
+	orig := img[off : off+int64(w)]
+	rd := func(at int64) (uint64, bool) {
+		if at < 0 || at+int64(w) > int64(len(img)) {
+			return 0, false
+		}
+		var v uint64
+		for i := w - 1; i >= 0; i-- {
+			v = v<<8 | uint64(img[at+int64(i)])
+		}
+		return v, true
+	}
 	max := uint64(1)<<(uint(w)*8) - 1
 	if w == 8 {
 		max = ^uint64(0)
@@ -388,6 +416,13 @@ func c18Values(orig []byte, w int, size, blk int64) [][]byte {
 		o = o<<8 | uint64(orig[i])
 	}
 	cands := []uint64{0, 1, max >> 1, max>>1 + 1, max, max - 1, o + 1, o - 1, uint64(size), uint64(size / 512), uint64(size/blk) + 1, o ^ 0x80, o << 1}
+	// on-disk fields come in related pairs (count and capacity, size and limit, start and end): the
+	// neighbouring words of the same width, and one more or less than them, are the boundaries of this one
+	for _, at := range []int64{off - int64(w), off + int64(w)} {
+		if nb, ok := rd(at); ok && w <= 4 {
+			cands = append(cands, nb, nb+1, nb-1)
+		}
+	}
 	seen := map[uint64]bool{o: true}
 	var out [][]byte
 	for _, v := range cands {
@@ -416,8 +451,8 @@ func panicSite(stack string) string {
 }
 
 func c18Probe(r *hx.Result, im *c18Image, f c18Fault) (opened bool) {
-	d := dev.FromBytes(im.bytes, im.size)
-	d.Poke(f.Off, unhex(f.Hex))
+	d, restore := im.damaged(f)
+	defer restore()
 	// "out of proportion": more than 32x the image plus 32 MiB of heap at any one moment. The sum of
 	// all allocations is an upper bound of that peak and is free to measure, so it decides the common
 	// case; only when the sum exceeds the bound is the probe repeated under a heap sampler.
@@ -436,8 +471,10 @@ func c18Probe(r *hx.Result, im *c18Image, f c18Fault) (opened bool) {
 	if !fin && !r.Failed() {
 		// a budget hit on a busy machine is not a verdict: the probe is repeated once, alone on a fresh
 		// device, with three times the budget; only a second miss counts
-		d3 := dev.FromBytes(im.bytes, im.size)
-		d3.Poke(f.Off, unhex(f.Hex))
+		// the first attempt may still be running on the shared device: leave that one to it
+		im.scratch = nil
+		d3, restore3 := im.damaged(f)
+		defer restore3()
 		limit *= 3
 		fin = hx.WithTimeout(limit, func() { hx.Safe(func() { werr = c18Walk(im.kind, d3, im.size) }) })
 		if fin {
@@ -445,6 +482,7 @@ func c18Probe(r *hx.Result, im *c18Image, f c18Fault) (opened bool) {
 		}
 	}
 	if !fin {
+		im.scratch = nil
 		r.Fail("hang:"+im.kind, "%s image with bytes %s at offset %d (%s): open+walk did not finish within %v (clean walk takes %v)", im.kind, f.Hex, f.Off, f.Label, limit, im.baseTime)
 		return true
 	}
@@ -464,8 +502,7 @@ func c18Probe(r *hx.Result, im *c18Image, f c18Fault) (opened bool) {
 		// needs every time counts
 		peak := ^uint64(0)
 		for i := 0; i < 3 && peak > bound; i++ {
-			d2 := dev.FromBytes(im.bytes, im.size)
-			d2.Poke(f.Off, unhex(f.Hex))
+			d2 := d
 			if p := peakHeap(func() {
 				hx.WithTimeout(limit, func() { hx.Safe(func() { _ = c18Walk(im.kind, d2, im.size) }) })
 			}); p < peak {
@@ -613,7 +650,7 @@ func execC18(ci any) (r hx.Result) {
 				if off+int64(w) > im.size {
 					continue
 				}
-				for _, v := range c18Values(im.bytes[off:off+int64(w)], w, im.size, blk) {
+				for _, v := range c18Values(im.bytes, off, w, im.size, blk) {
 					if !run(c18Fault{Off: off, Hex: hexs(v)}) {
 						return
 					}
@@ -627,7 +664,7 @@ func execC18(ci any) (r hx.Result) {
 
 func init() {
 	hx.Register(&hx.Spec{ID: "C18", Exec: execC18, New: func() any { return new(c18Case) },
-		Rule: "case = base image (fat12, fat16, fat32, ext4 with and without metadata_csum, ext4 made by mke2fs, iso9660 plain and Rock Ridge, squashfs uncompressed and gzip), evaluations = corruptions applied to it: for every byte range the reader consumes during a clean open + walk + read-everything (minus file payload), every aligned 1/2/4/8-byte word x {0, 1, 0x7F.., 0x80.., 0xFF.., max-1, original+-1, original^0x80, original<<1, image size in bytes / sectors / blocks}, plus FAT chain self-links, 2-cycles, out-of-range, free and reserved links in either FAT copy; enumerated, not sampled (quick: a strided, seeded subset; thorough: all); every member is distinct (a different word or value); non-trivial = the damaged image is still accepted at open, so listing and reading run on damaged structures (probes refused at open are counted per base under refused_at_open)"})
+		Rule: "case = base image (fat12, fat16, fat32, ext4 with and without metadata_csum, ext4 made by mke2fs, iso9660 plain and Rock Ridge, squashfs uncompressed and gzip), evaluations = corruptions applied to it: for every byte range the reader consumes during a clean open + walk + read-everything (minus file payload), every aligned 1/2/4/8-byte word x {0, 1, 0x7F.., 0x80.., 0xFF.., max-1, original+-1, original^0x80, original<<1, image size in bytes / sectors / blocks, and for 1/2/4-byte words the values of the two neighbouring words and those +-1}, plus FAT chain self-links, 2-cycles, out-of-range, free and reserved links in either FAT copy; enumerated, not sampled (quick: a strided, seeded subset; thorough: all); every member is distinct (a different word or value); non-trivial = the damaged image is still accepted at open, so listing and reading run on damaged structures (probes refused at open are counted per base under refused_at_open)"})
 }
 
 // TestC18 enumerates this shard's share of the fault families of every base image.
@@ -640,7 +677,7 @@ func TestC18(t *testing.T) {
 	seed, _ := strconv.Atoi(os.Getenv("VERIF_SEED"))
 	stride := 1
 	if !hx.Thorough() {
-		stride = 64
+		stride = 4
 	}
 	if s, err := strconv.Atoi(os.Getenv("VERIF_C18_STRIDE")); err == nil && s > 0 {
 		stride = s
